@@ -131,7 +131,7 @@ def _case(rng, i, tier):
                 xs.append(s)
     tt = None
     if rng.random() < 0.12:
-        desc, (xs,), _ = gen.intify_terms(desc, xs)
+        desc, (xs,), _ = gen.intify_terms(desc, xs, offset=rng.choice([0, 0, -len(desc["V"])]))
         tt = rng.choice([None, "float"])
         shape += "+int_tokens" + ("+" + tt if tt else "")
     return {"id": i, "shape": shape, "R": R, "cfg": desc, "xs": xs, "mat_n": mat_n, "token_type": tt,
